@@ -79,12 +79,18 @@ func main() {
 				continue
 			}
 			fmt.Printf("block %d (%s) succs %d\n", b.Index, b.Kind, len(b.Succs))
-			for _, n := range b.Nodes {
+			for bi, n := range b.Nodes {
 				switch x := n.(type) {
 				case ast.Expr:
 					fmt.Printf("   expr  %s\n", exprKey(x))
 				case *ast.AssignStmt:
 					fmt.Printf("   %s %s %s\n", exprKey(x.Lhs[0]), x.Tok, exprKey(x.Rhs[0]))
+					if cl, ok := ast.Unparen(x.Rhs[0]).(*ast.CallExpr); ok {
+						for ai, a := range cl.Args {
+							re, _ := f.Resolve(a, Point{b, bi})
+							fmt.Printf("        arg%d %s -> %s  | keyAt %s\n", ai, exprKey(a), exprKey(re), f.KeyAt(a, Point{b, bi}))
+						}
+					}
 				case *ast.ExprStmt:
 					fmt.Printf("   stmt  %s\n", exprKey(x.X))
 				case *ast.ReturnStmt:
